@@ -183,6 +183,137 @@ theorem isStop_false {g : Grammar} (hg : Plain g) (i : Nat) :
     simp only [plainNode, Bool.and_eq_true] at hn
     cases hk : n.kind <;> simp_all [plainKind]
 
+/-! ### the character-class terminals behave like terminals -/
+
+
+def TermOk (s : List Char) (loc : Nat) (o : Out) : Prop :=
+  (o = .idx → s.length ≤ loc) ∧ (∀ c l, o = .fail c l → c = .parse) ∧ o ≠ .hang
+
+theorem caselessLit_ok (mU ret s : List Char) (loc : Nat) : TermOk s loc (caselessLitImpl mU ret s loc) := by
+  unfold caselessLitImpl TermOk; split <;> simp
+
+theorem kwAfter_ok (m ident : List Char) (up : Char → Char) (s : List Char) (loc : Nat) :
+    TermOk s loc (kwAfter m ident up s loc) := by
+  unfold kwAfter TermOk
+  split
+  · simp
+  · split
+    · rename_i h _ hn; simp at hn; omega
+    · split <;> simp
+
+theorem kwTail_ok (m ident : List Char) (up : Char → Char) (s : List Char) (loc : Nat) :
+    TermOk s loc (kwTail m ident up s loc) := by
+  unfold kwTail
+  split
+  · exact kwAfter_ok ..
+  · split
+    · rename_i hn; simp at hn; unfold TermOk; simp; omega
+    · split
+      · unfold TermOk; simp
+      · exact kwAfter_ok ..
+
+theorem keyword_ok (m ident : List Char) (cl : Bool) (s : List Char) (loc : Nat) :
+    TermOk s loc (keywordImpl m ident cl s loc) := by
+  unfold keywordImpl
+  split
+  · split
+    · exact kwTail_ok ..
+    · unfold TermOk; simp
+  · split
+    · rename_i hn; simp at hn; unfold TermOk; simp; omega
+    · split
+      · exact kwTail_ok ..
+      · unfold TermOk; simp
+
+theorem TermOk.ok (s : List Char) (loc e : Nat) (ts : List Tok) : TermOk s loc (.ok e ts) := by simp [TermOk]
+theorem TermOk.failp (s : List Char) (loc l : Nat) : TermOk s loc (.fail .parse l) := by simp [TermOk]
+theorem TermOk.ite {s : List Char} {loc : Nat} {c : Prop} [Decidable c] {a b : Out} (ha : TermOk s loc a)
+    (hb : TermOk s loc b) : TermOk s loc (if c then a else b) := by split <;> assumption
+theorem TermOk.idx {s : List Char} {loc : Nat} (h : s.length ≤ loc) : TermOk s loc .idx := by simp [TermOk, h]
+
+theorem wordSlow_ok (i b : List Char) (mn : Nat) (mx : Option Nat) (ms kw : Bool) (s : List Char) (loc : Nat) :
+    TermOk s loc (wordSlowImpl i b mn mx ms kw s loc) := by
+  unfold wordSlowImpl
+  split
+  · rename_i hn; simp at hn; exact TermOk.idx hn
+  · dsimp only
+    repeat' (first | apply TermOk.ite | apply TermOk.ok | apply TermOk.failp)
+
+theorem wordRe_ok (i b : List Char) (mn : Nat) (mx : Option Nat) (kw : Bool) (s : List Char) (loc : Nat) :
+    TermOk s loc (wordReImpl i b mn mx kw s loc) := by
+  unfold wordReImpl
+  split
+  · apply TermOk.failp
+  · dsimp only
+    repeat' (first | apply TermOk.ite | apply TermOk.ok | apply TermOk.failp)
+    split <;> first | apply TermOk.ok | apply TermOk.failp
+
+theorem charsNotIn_ok (n : List Char) (mn : Nat) (mx : Option Nat) (s : List Char) (loc : Nat) :
+    TermOk s loc (charsNotInImpl n mn mx s loc) := by
+  unfold charsNotInImpl
+  split
+  · rename_i hn; simp at hn; exact TermOk.idx hn
+  · dsimp only
+    repeat' (first | apply TermOk.ite | apply TermOk.ok | apply TermOk.failp)
+
+theorem lineEnd_ok (s : List Char) (loc : Nat) : TermOk s loc (lineEndImpl s loc) := by
+  unfold lineEndImpl TermOk
+  split
+  · split <;> simp
+  · split <;> simp
+
+theorem wordStart_ok (cs s : List Char) (loc : Nat) : TermOk s loc (wordStartImpl cs s loc) := by
+  unfold wordStartImpl TermOk
+  split
+  · simp
+  · split
+    · rename_i hn; simp at hn; simp; omega
+    · split
+      · simp
+      · split
+        · rename_i hn; simp at hn; simp; omega
+        · split <;> simp
+
+theorem wordEnd_ok (cs s : List Char) (loc : Nat) : TermOk s loc (wordEndImpl cs s loc) := by
+  unfold wordEndImpl TermOk
+  split
+  · rename_i hlt
+    simp at hlt
+    split
+    · rename_i hn; simp at hn; omega
+    · split
+      · simp
+      · simp only; split
+        · rename_i hn
+          split at hn <;> simp at hn <;> omega
+        · split <;> simp
+  · simp
+
+theorem termImpl_ok {k : Kind} {s : List Char} {loc : Nat} {o : Out} (h : termImpl k s loc = some o) : TermOk s loc o := by
+  unfold termImpl at h
+  split at h <;> simp only [Option.some.injEq, reduceCtorEq] at h <;> subst h
+  · exact caselessLit_ok ..
+  · exact keyword_ok ..
+  · split
+    · exact wordRe_ok ..
+    · exact wordSlow_ok ..
+  · exact charsNotIn_ok ..
+  · exact lineEnd_ok ..
+  · exact wordStart_ok ..
+  · exact wordEnd_ok ..
+
+
+theorem term_sound {g : Grammar} {s : List Char} {nd : Node} {loc : Nat} {o : Out}
+    (h : termImpl nd.kind s loc = some o) : AgreesImpl g s nd loc o := by
+  have hl : leafSem nd.kind s loc = some (outRes o) := by
+    cases hk : nd.kind <;> simp_all [leafSem, termImpl]
+  obtain ⟨h1, h2, h3⟩ := termImpl_ok h
+  cases o with
+  | ok e ts => exact .leaf hl
+  | fail c l => exact ⟨h2 c l rfl, .leaf hl⟩
+  | idx => exact ⟨h1 rfl, .leaf hl⟩
+  | hang => exact absurd rfl h3
+
 theorem parseImpl_sound {g : Grammar} {s : List Char} {p : P} (hg : Plain g) (hp : AgreeP g s p) (nd : Node)
     (hn : plainNode nd = true) (loc : Nat) (a : Bool) : AgreesImpl g s nd loc (parseImpl g p nd s loc a) := by
   simp only [plainNode, Bool.and_eq_true, List.isEmpty_iff] at hn
@@ -318,6 +449,13 @@ theorem parseImpl_sound {g : Grammar} {s : List Char} {p : P} (hg : Plain g) (hp
     cases e with
     | none => simp [hkind, plainKind] at hk
     | some e => exact AgreesImpl.of_agrees (enhance_sound hp nd e loc a (by simp [wrapped, hkind]))
+  | caselessLit mU ret => exact term_sound (by simp [termImpl, hkind])
+  | keyword m ident cl => exact term_sound (by simp [termImpl, hkind])
+  | word i b mn mx ms kw re => exact term_sound (by simp [termImpl, hkind])
+  | charsNotIn n mn mx => exact term_sound (by simp [termImpl, hkind])
+  | lineEnd => exact term_sound (by simp [termImpl, hkind])
+  | wordStart cs => exact term_sound (by simp [termImpl, hkind])
+  | wordEnd cs => exact term_sound (by simp [termImpl, hkind])
   | _ => simp [hkind, plainKind] at hk
 
 theorem preParse_plain (p : P) (nd : Node) (hn : plainNode nd = true) (s : List Char) (loc : Nat) :
@@ -374,7 +512,7 @@ theorem parse_sound {g : Grammar} {s : List Char} (hg : Plain g) : ∀ f, AgreeP
 
 theorem leaf_wrapped_absurd {k : Kind} {s : List Char} {loc : Nat} {r : Res} {e : Nat}
     (h1 : leafSem k s loc = some r) (h2 : wrapped k = some e) : False := by
-  cases k <;> simp_all [leafSem, wrapped]
+  cases k <;> simp_all [leafSem, wrapped, termImpl]
 
 theorem Sem.det {g : Grammar} {s : List Char} {t : Task} {r1 : Res} (h1 : Sem g s t r1) :
     ∀ r2, Sem g s t r2 → r1 = r2 := by
@@ -387,11 +525,11 @@ theorem Sem.det {g : Grammar} {s : List Char} {t : Task} {r1 : Res} (h1 : Sem g 
     intro r2 h2
     cases h2 with
     | wrap hw _ => exact (leaf_wrapped_absurd hl hw).elim
-    | _ => simp_all [leafSem]
+    | _ => simp_all [leafSem, termImpl]
   | andFail hk _ ih =>
     intro r2 h2
     cases h2 with
-    | leaf hl => simp_all [leafSem]
+    | leaf hl => simp_all [leafSem, termImpl]
     | wrap hw _ => simp_all [wrapped]
     | andFail hk2 _ => rfl
     | andOk hk2 h0 _ => rw [hk] at hk2; cases hk2; exact absurd (ih _ h0) (by simp)
@@ -399,7 +537,7 @@ theorem Sem.det {g : Grammar} {s : List Char} {t : Task} {r1 : Res} (h1 : Sem g 
   | andOk hk _ _ ih0 ih1 =>
     intro r2 h2
     cases h2 with
-    | leaf hl => simp_all [leafSem]
+    | leaf hl => simp_all [leafSem, termImpl]
     | wrap hw _ => simp_all [wrapped]
     | andFail hk2 h0 => rw [hk] at hk2; cases hk2; exact absurd (ih0 _ h0) (by simp)
     | andOk hk2 h0 h1 =>
@@ -427,7 +565,7 @@ theorem Sem.det {g : Grammar} {s : List Char} {t : Task} {r1 : Res} (h1 : Sem g 
   | matchFirst hk _ ih =>
     intro r2 h2
     cases h2 with
-    | leaf hl => simp_all [leafSem]
+    | leaf hl => simp_all [leafSem, termImpl]
     | wrap hw _ => simp_all [wrapped]
     | matchFirst hk2 h0 => rw [hk] at hk2; cases hk2; exact ih _ h0
     | _ => simp_all
@@ -445,14 +583,14 @@ theorem Sem.det {g : Grammar} {s : List Char} {t : Task} {r1 : Res} (h1 : Sem g 
   | opt hk _ ih =>
     intro r2 h2
     cases h2 with
-    | leaf hl => simp_all [leafSem]
+    | leaf hl => simp_all [leafSem, termImpl]
     | wrap hw _ => simp_all [wrapped]
     | opt hk2 h0 => rw [hk] at hk2; cases hk2; rw [ih _ h0]
     | _ => simp_all
   | manyFail hk _ ih =>
     intro r2 h2
     cases h2 with
-    | leaf hl => simp_all [leafSem]
+    | leaf hl => simp_all [leafSem, termImpl]
     | wrap hw _ => simp_all [wrapped]
     | manyFail hk2 _ => rw [hk] at hk2; cases hk2; rfl
     | manyOk hk2 h0 _ => rw [hk] at hk2; cases hk2; exact absurd (ih _ h0) (by simp)
@@ -460,7 +598,7 @@ theorem Sem.det {g : Grammar} {s : List Char} {t : Task} {r1 : Res} (h1 : Sem g 
   | manyOk hk _ _ ih0 ih1 =>
     intro r2 h2
     cases h2 with
-    | leaf hl => simp_all [leafSem]
+    | leaf hl => simp_all [leafSem, termImpl]
     | wrap hw _ => simp_all [wrapped]
     | manyFail hk2 h0 => rw [hk] at hk2; cases hk2; exact absurd (ih0 _ h0) (by simp)
     | manyOk hk2 h0 h1 =>
@@ -487,14 +625,14 @@ theorem Sem.det {g : Grammar} {s : List Char} {t : Task} {r1 : Res} (h1 : Sem g 
   | notAny hk _ ih =>
     intro r2 h2
     cases h2 with
-    | leaf hl => simp_all [leafSem]
+    | leaf hl => simp_all [leafSem, termImpl]
     | wrap hw _ => simp_all [wrapped]
     | notAny hk2 h0 => rw [hk] at hk2; cases hk2; rw [ih _ h0]
     | _ => simp_all
   | followedBy hk _ ih =>
     intro r2 h2
     cases h2 with
-    | leaf hl => simp_all [leafSem]
+    | leaf hl => simp_all [leafSem, termImpl]
     | wrap hw _ => simp_all [wrapped]
     | followedBy hk2 h0 => rw [hk] at hk2; cases hk2; rw [ih _ h0]
     | _ => simp_all
